@@ -210,7 +210,7 @@ fn sample_flavour<R: Rng>(flavour: u8, items: &Vec<i32>, rng: &mut R) -> Option<
             }
             Err(_) => Built::Empty,
         },
-        5..=9 => return array_flavours!(items, rng, flavour - 5, 0, 1, 2, 3, 4, 5, 6, 7, 8),
+        5..=9 => return array_flavours!(items, rng, flavour - 5, 0, 1, 2, 3, 4, 5, 6, 7, 8, 13, 100),
         10 => match IntoDistribution::<&i32>::into_distribution(items.as_slice()) {
             Ok(d) => {
                 let r: &i32 = d.sample(rng);
@@ -308,7 +308,13 @@ fn strategy(max_size: usize) -> BoxedStrategy<Case> {
 fn uniformity_jobs() -> Vec<Job> {
     let mut jobs = vec![];
     for flavour in 0u8..15 {
-        for len in [1usize, 2, 3, 5, 8] {
+        for len in [1usize, 2, 3, 5, 8, 13, 100, 200] {
+            if len == 200 && (5..=9).contains(&flavour) {
+                continue; // arrays are instantiated up to 100 members
+            }
+            if len > 8 && flavour == 14 {
+                continue; // the macro flavour uses three members
+            }
             for dup in [false, true] {
                 if dup && len < 3 {
                     continue;
@@ -352,8 +358,8 @@ fn uniformity_jobs() -> Vec<Job> {
 }
 
 pub fn run(ctx: &mut Ctx) {
-    ctx.rule = "collections: sizes 0..300 plus boundary sizes up to 5000 (and 100000 once per run) through Generator for Vec<T>, Bitstring, Plushy, populations of scored individuals and nested collections, into_ and to_ flavours, with an element generator that counts how often it is asked and tags what it emits (length = size, asked exactly size times, elements are exactly the generator's output). choices: all 14 conversion flavours of conversion.rs (Vec / array / slice x into / to x owned-cloning / borrowing / cloning) plus uniform_distribution_of!, sources of length 0..8 with and without duplicates: empty => rejected at construction without panic; samples are members (pointer identity for borrowing flavours), num_choices = length; member frequencies = multiplicity / length (Chernoff/KL). non-trivial = size >= 2 / source length >= 2; statistics with 0 < p < 1".into();
-    let (n, trials, max) = ctx.tier.pick((300_000u32, 300_000u64, 300usize), (5_000_000, 5_000_000, 2_000));
+    ctx.rule = "collections: sizes 0..300 plus boundary sizes up to 5000 (and 100000 once per run) through Generator for Vec<T>, Bitstring, Plushy, populations of scored individuals and nested collections, into_ and to_ flavours, with an element generator that counts how often it is asked and tags what it emits (length = size, asked exactly size times, elements are exactly the generator's output). choices: all 14 conversion flavours of conversion.rs (Vec / array / slice x into / to x owned-cloning / borrowing / cloning) plus uniform_distribution_of!, sources of length 0..8 (membership) and 1..200 (frequencies) with and without duplicates: empty => rejected at construction without panic; samples are members (pointer identity for borrowing flavours), num_choices = length; member frequencies = multiplicity / length (Chernoff/KL). non-trivial = size >= 2 / source length >= 2; statistics with 0 < p < 1".into();
+    let (n, trials, max) = ctx.tier.pick((300_000u32, 1_000_000u64, 300usize), (5_000_000, 10_000_000, 2_000));
     // one very large request per run
     ctx.run_cases(
         "large_requests",
@@ -371,7 +377,7 @@ pub fn run(ctx: &mut Ctx) {
 
 pub fn replay(ctx: &mut Ctx, sub: &str, case: &Value) {
     if sub == "choice_uniformity" {
-        let trials = ctx.tier.pick(300_000u64, 5_000_000);
+        let trials = ctx.tier.pick(1_000_000u64, 10_000_000);
         run_jobs(ctx, "choice_uniformity", uniformity_jobs(), trials);
     } else {
         ctx.replay_case::<Case, _>(sub, case, oracle);
